@@ -23,7 +23,9 @@ def RULE(tier):
         + ("EVERY 2-cut partition" if tier == "thorough" else "every 2-cut partition with both cuts within 8 bytes of a frame start / BodyLength / CheckSum field")
         + " of the small streams, the all-1-byte partition, Hypothesis-drawn multi-cut partitions of generated "
         "streams (frames > 4096 B included, so read(4096) splits too), and marker-free garbage (random bytes, SOH, "
-        "'=', proper prefixes of the marker) between frames. Expectation by construction: dispatcher, on_message "
+        "'=', proper prefixes of the marker) between frames; and streams that START with the Logon (Logon, application message, "
+        "ResendRequest, TestRequest, application message) on endpoints of both roles that are connected but not logged on: one read, "
+        "every 1-cut, frame-boundary reads, 1-byte reads. Expectation by construction: dispatcher, on_message "
         "and inbound journal see exactly the sent frames, once, in order, byte-identical; receive buffer empty at "
         "the end. Non-trivial = a cut strictly inside a frame, or garbage; distinct by (stream, cuts)."
     )
@@ -224,6 +226,50 @@ def cuts2(acc, name, part, parts, full):
         b.close()
 
 
+def logon_stream(acc, role):
+    """The Logon itself is part of the stream: [Logon, frames behind it], every 1-cut, no cut (one read), 1-byte reads,
+    on an endpoint that is connected but not yet logged on (acceptor; initiator that has sent its Logon)."""
+    from vlib.sess import Bench as SBench
+
+    peer, me = ("CLI", "SRV") if role == "acceptor" else ("SRV", "CLI")
+    frames = [
+        ref_msg("A", peer, me, 1, [(98, 0), (108, 30)]),
+        ref_msg("D", peer, me, 2, [(11, "right-behind-logon"), (55, "X")]),
+        ref_msg("2", peer, me, 3, [(7, 1), (16, 0)]),
+        ref_msg("1", peer, me, 4, [(112, "PING")]),
+        ref_msg("D", peer, me, 5, [(11, "last")]),
+    ]
+    data = b"".join(frames)
+    n = len(data)
+    bounds = []
+    pos = 0
+    for f in frames:
+        pos += len(f)
+        bounds.append(pos)
+    parts = [[]] + [[c] for c in range(1, n)] + [bounds[:-1]] + [list(range(1, n))] + [[bounds[0]], [bounds[1]], [bounds[0], bounds[2]]]
+    for cuts in parts:
+        b = SBench(role, "connected")
+        try:
+            r = b.link.readers[b.side]
+            chunks = [data[a:z] for a, z in zip([0] + cuts, cuts + [n])]
+            for c in chunks:
+                r.feed(c)
+                b.w.idle()
+            got = list(b.ep.dispatched)
+            case = {"logon_stream": role, "cuts": cuts if len(cuts) < 30 else "all-1-byte"}
+            kind = "one-read" if not cuts else ("one-byte-reads" if len(cuts) == n - 1 else ("frame-boundaries" if all(c in bounds for c in cuts) else "cut-inside"))
+            if got != frames:
+                missing = [i for i, f in enumerate(frames) if f not in got]
+                acc.violation(f"C03:logon-stream/lost-frames/{kind}", f"{role}: stream [Logon, D, ResendRequest, TestRequest, D] cuts={case['cuts']}: dispatcher saw {len(got)} of 5 frames, "
+                              f"missing indexes {missing}, state {b.ep.connection_state.name}, buffer {len(b.ep._msg_buffer)} B", case)
+            elif [m.get(11) for m in b.ep.app_msgs] != ["right-behind-logon", "last"]:
+                acc.violation(f"C03:logon-stream/on_message/{kind}", f"{role}: on_message saw {[m.get(11) for m in b.ep.app_msgs]}", case)
+            acc.case(("logon-stream", role, tuple(cuts)), cls=[f"kind=logon-stream/{kind}"],
+                     sample={"logon_stream": role, "frames": 5, "bytes": n, "cuts": cuts} if len(acc.samples) < 1 and cuts == [] else None)
+        finally:
+            b.close()
+
+
 GARBAGE = [b"\x01", b"=", b"8", b"8=", b"8=F", b"8=FI", b"8=FIX", b"\x0110=000\x01", b"\x00\xff\x01=", b"junk junk", b"9=12\x0135=A\x01",
            b"10=123\x01", b"\n", b"FIX.4.4", b"8=FIX,4.4\x019=5\x01",
            # long garbage (longer than the frames behind it), and the tail of an aborted frame
@@ -305,6 +351,7 @@ def EXHAUSTIVE(tier):
 def plan(tier, seed):
     jobs = [("cuts1", {"name": n}) for n in small_streams()]
     jobs.append(("garbage_sweep", {}))
+    jobs += [("logon_stream", {"role": r}) for r in ("acceptor", "initiator")]
     if tier == "quick":
         jobs += [("cuts2", {"name": "A3", "part": i, "parts": 4, "full": False}) for i in range(4)]
         jobs += [("cuts2", {"name": "B2", "part": 0, "parts": 1, "full": False})]
@@ -318,6 +365,9 @@ def plan(tier, seed):
 
 
 def replay(acc, case):
+    if "logon_stream" in case:
+        logon_stream(acc, case["logon_stream"])
+        return
     b = Bench()
     try:
         judge(acc, b, case["stream"], case["frames"], case["cuts"], {int(k): v for k, v in case.get("garbage", {}).items()})
